@@ -80,20 +80,29 @@ def _hint_decomp(S, descending, what):
     solver that Q^T S Q is diagonal (otherwise it falls back to the fresh-variable contract), sorts the eigenvalues
     by forking comparisons and optionally flips column signs by free choice (KERNELS['eig_signs'])."""
     import torch
-    hint = torch.KERNELS.get("eigbasis")
-    if hint is None:
+    hints = torch.KERNELS.get("eigbasis")
+    if hints is None:
         return None
-    Q = hint["Q"]
+    if isinstance(hints, dict):
+        hints = [hints]
     n = len(S)
-    if len(Q) != n:
+    D = Q = None
+    for hint in hints:
+        Qc = hint["Q"]
+        if len(Qc) != n:
+            continue
+        QtS = _matmul_l(_tr_l(Qc), S)
+        Dc = _matmul_l(QtS, Qc)
+        off = [Dc[i][j].eqz(0) for i in range(n) for j in range(n) if i != j]
+        if off:
+            f = z3.simplify(z3.And(*off))
+            if not z3.is_true(f) and symx.space().check(z3.Not(f), timeout_ms=3000) != "unsat":
+                continue
+        D, Q = Dc, Qc
+        torch.KERNELS["_eig_used"] = hint
+        break
+    if D is None:
         return None
-    QtS = _matmul_l(_tr_l(Q), S)
-    D = _matmul_l(QtS, Q)
-    off = [D[i][j].eqz(0) for i in range(n) for j in range(n) if i != j]
-    if off:
-        f = z3.simplify(z3.And(*off))
-        if not z3.is_true(f) and symx.space().check(z3.Not(f)) != "unsat":
-            return None
     d = [D[i][i] for i in range(n)]
     # sort (insertion, forking)
     order = []
@@ -151,7 +160,7 @@ def _svd_contract(A, legacy=False):
     if hd is not None:
         import torch
         d, U, order = hd
-        sig = torch.KERNELS["eigbasis"].get("sigma")
+        sig = torch.KERNELS["_eig_used"].get("sigma")
         S = []
         for pos, i in enumerate(order):
             if sig is not None and symx.space().check(z3.Not((sig[i] * sig[i]).eqz(d[pos]))) == "unsat":
